@@ -777,6 +777,12 @@ func ownershipRules(c *Ctx, r *Report) {
 	checkGlobals(c, r)
 	checkSharedSlices(c, r)
 	checkOutputBuffers(c, r)
+	// the Info handed out by Config.Get shares no map or list with the
+	// configuration: it is the destination of the deep-copying base merge
+	// (rules of C13)
+	importRules(c, r, checkC13, "get-", []string{"S-get"}, func(o Obligation) bool {
+		return strings.Contains(o.Construct, "deep copy") || strings.Contains(o.Construct, "base copy")
+	})
 	checkMergeAlias(c, r, "W4-merge-alias")
 	checkFixture(c, r, []string{"go", "globalwrite", "fswrite", "atomic-mix"})
 }
